@@ -484,7 +484,7 @@ class ProgGen:
             body = (kind,) + tuple(self.block_items(kind, depth + 1, params, in_sub, in_par or kind == "parallel_block"))
             return ("loop", self.count(params), body)
         if k == "sub":
-            cnt = "" if rng.random() > p["p_sub_count"] else self.count(params, counts=(1, 2, 3, 10, 300))
+            cnt = "" if rng.random() > p["p_sub_count"] else self.count(params, counts=(0, 1, 2, 3, 10, 300))
             return ("subcircuit_block", cnt) + tuple(self.block_items("sequential_block", depth + 1, params, True, in_par))
         raise ValueError(k)
 
@@ -528,11 +528,34 @@ class ExecGen(ProgGen):
         self.used.update(gateset_sig.GATES)
         self.used.update(["prepare_all", "measure_all"])
         self.macro_info = {}  # name -> (nq params, n float params)
+        self.index_macros = {}  # name -> (register-like name, n float params)
+
+    def gen_index_macro(self):
+        """Macro whose integer parameter indexes a register or alias: `macro pick k t { Rx reg[k] t }`."""
+        rng = self.rng
+        name = self.fresh(MACRO_NAMES, "mc")
+        reg = rng.choice(list(self.elems))
+        pool = [n for n in PARAM_NAMES + ["k", "i"] if n != reg]
+        kname = rng.choice(pool)
+        fname = rng.choice([n for n in pool if n != kname])
+        gname = rng.choice(["X", "H", "S", "T2", "Rx", "Ry", "Rz", "NOP"])
+        has_f = gname in ("Rx", "Ry", "Rz")
+        ref = ("array_item", reg, kname)
+        g = ("gate", gname, ref) + ((fname,) if has_f else ())
+        body = [g]
+        if rng.random() < 0.4:
+            body.append(("gate", rng.choice(["X", "H", "I_X"]), ref))
+        params = (kname,) + ((fname,) if has_f else ())
+        self.index_macros[name] = (reg, 1 if has_f else 0)
+        self.macros[name] = ["idx"] + (["num"] if has_f else [])
+        return ("macro", name) + params + (("sequential_block",) + tuple(body),)
 
     def gen_exec_macro(self):
         """Macro whose body acts only on its qubit parameters (so that calls in parallel
         blocks are disjoint when their arguments are) plus numeric parameters."""
         rng = self.rng
+        if self.elems and rng.random() < 0.3:
+            return self.gen_index_macro()
         name = self.fresh(MACRO_NAMES, "mc")
         nqp = rng.choice([1, 1, 2, 2, 3])
         nqp = min(nqp, self.regsize)
@@ -612,6 +635,14 @@ class ExecGen(ProgGen):
     def exec_gate(self, avail):
         """native gate or macro call on a subset of avail; returns (stmt, used set)."""
         rng = self.rng
+        if self.index_macros and rng.random() < 0.2:
+            m = rng.choice(list(self.index_macros))
+            reg, mf = self.index_macros[m]
+            cands = [(i, ph) for i, ph in enumerate(self.elems[reg]) if ph in avail]
+            if cands:
+                i, ph = rng.choice(cands)
+                args = [self.ioi(i, self.p["p_let_index"])] + [self.angle_native() for _ in range(mf)]
+                return ("gate", m) + tuple(args), {ph}
         if self.macro_info and rng.random() < 0.3:
             cands = [m for m, (mq, mf) in self.macro_info.items() if mq <= len(avail)]
             if cands:
